@@ -498,8 +498,11 @@ class World:
                 data = from_doc(mutate_doc(to_doc(data, m), bad["k"], bad["mut"]), m)
             if flt:
                 FAULTS.arm(flt["site"], flt["k"])
+            entry = ASTNode
+            if op.get("entry") == "cls" and pm.get("spec") is not None:
+                entry = U.CLS[pm["spec"]["c"]]
             try:
-                res = call_deser(ASTNode, data, m, opts)
+                res = call_deser(entry, data, m, opts)
             except Exception as e:  # noqa: BLE001
                 if not (flt or bad):
                     raise self.viol("C16.0 call-raised", f"C16.0:{m}:{type(e).__name__}", f"{m} with options {sorted(opts)} raised {type(e).__name__}: {e}") from None
@@ -592,7 +595,8 @@ class Gen:
                 t = w.meta[p]["t"]
                 if t in w.handles and r.random() < 0.8:
                     do({"op": "detach", "t": t})
-                do({"op": "call", "m": m, "p": p, "opts": opts, "out": f"r{ci}"})
+                entry = r.choice(["ASTNode", "cls"])
+                do({"op": "call", "m": m, "p": p, "opts": opts, "out": f"r{ci}", "entry": entry})
                 if w.cfg["faults"] and budget > 0:
                     doc = to_doc(w.handles[p], m)
                     nmaps = len(node_maps(doc, []))
@@ -610,7 +614,7 @@ class Gen:
                         # a re-created tree of an earlier (un-faulted) call may still be registered: detach it too
                         if f"r{ci}" in w.handles and w.kinds.get(f"r{ci}") == "node":
                             do({"op": "detach", "t": f"r{ci}"})
-                        do({"op": "call", "m": m, "p": p, "opts": opts, **s})
+                        do({"op": "call", "m": m, "p": p, "opts": opts, "entry": entry, **s})
             else:
                 m = r.choice(SER)
                 opts = self.opts(m)
